@@ -18,6 +18,7 @@ import (
 	"verif/explore"
 	"verif/gen"
 	"verif/refsfnt"
+	"verif/refcmap"
 	"verif/refshape"
 	"verif/run"
 )
@@ -230,6 +231,110 @@ func c15Layout(r *run.Run) {
 			})
 			c.Count("strings laid out", int64(n))
 			c.Outcome(fmt.Sprint(spec), lang, swg, swp)
+		})
+}
+
+// cmap selection inside Layout: every subset of the five selectable (platform, encoding) keys, each
+// with its own mapping, so that the glyphs show which subtable the layouter used; the Macintosh
+// subtable is keyed by Mac Roman bytes.  The expected choice and the decoding are spelled out here
+// (independent of Table.GetBest and of the library's decoders).
+func c15CmapSelection(r *run.Run) {
+	type key struct {
+		k     cmap.Key
+		glyph uint16
+		full  bool
+	}
+	// preference order of the property: full Unicode over BMP over legacy
+	keys := []key{{cmap.Key{PlatformID: 3, EncodingID: 10}, 1, true}, {cmap.Key{PlatformID: 0, EncodingID: 4}, 2, true}, {cmap.Key{PlatformID: 3, EncodingID: 1}, 3, false}, {cmap.Key{PlatformID: 0, EncodingID: 3}, 4, false}, {cmap.Key{PlatformID: 1, EncodingID: 0}, 5, false}}
+	runes := []rune{'A', 0xC4, 0x1F600, 'x'} // A, A-umlaut (Mac Roman 0x80), an astral character, an unmapped one
+	macByte := map[rune]uint16{'A': 0x41, 0xC4: 0x80}
+	r.Explore(explore.Config{Name: "C15.cmap-selection"},
+		"fonts whose cmap table holds every subset of the keys (3,10) (0,4) (3,1) (0,3) (1,0), each subtable with its own target glyph (formats 12 / 4; the Macintosh subtable in format 4 or 6 keyed by Mac Roman bytes), laid out on all strings of length <= 2 over {A, U+00C4, U+1F600, unmapped x}: each character must get the glyph of the preferred subtable present, or glyph 0",
+		func(c *explore.Ctx) {
+			f, _ := FontFromChoices(gen.FontOpts{NoMeta: true, NoLayout: true}, gen.KindGlyf, 2, 0, 0, 1)
+			t := cmap.Table{}
+			var desc []string
+			var winner *key
+			macFmt := 0
+			for i := range keys {
+				k := &keys[i]
+				n := 2
+				if k.k.PlatformID == 1 {
+					n = 3
+				}
+				ch := c.Choose(n, fmt.Sprintf("key %v", k.k))
+				if ch == 0 {
+					continue
+				}
+				switch {
+				case k.full:
+					t[k.k] = cmap.Format12{'A': glyph.ID(k.glyph), 0xC4: glyph.ID(k.glyph), 0x1F600: glyph.ID(k.glyph)}.Encode(0)
+				case k.k.PlatformID == 1 && ch == 1:
+					t[k.k] = refcmap.Assemble4([]refcmap.Seg4{{Start: 0x41, End: 0x41, Delta: k.glyph - 0x41}, {Start: 0x80, End: 0x80, Delta: k.glyph - 0x80}, {Start: 0xFFFF, End: 0xFFFF, Delta: 1}}, 0)
+					macFmt = 4
+				case k.k.PlatformID == 1:
+					gl := make([]uint16, 0x40)
+					gl[0], gl[0x3F] = k.glyph, k.glyph
+					t[k.k] = refcmap.Assemble6(0x41, gl, 0, false)
+					macFmt = 6
+				default:
+					t[k.k] = cmap.Format4{'A': glyph.ID(k.glyph), 0xC4: glyph.ID(k.glyph)}.Encode(0)
+				}
+				desc = append(desc, fmt.Sprintf("(%d,%d)->glyph %d", k.k.PlatformID, k.k.EncodingID, k.glyph))
+				if winner == nil {
+					winner = k
+				}
+			}
+			if winner == nil {
+				c.Skip("no subtable")
+			}
+			if macFmt != 0 {
+				desc = append(desc, fmt.Sprintf("Macintosh subtable in format %d", macFmt))
+			}
+			c.Sample(func() any { return desc })
+			if len(t) > 1 {
+				c.Nontrivial()
+			}
+			f.CMapTable = t
+			want := func(ru rune) glyph.ID {
+				switch {
+				case winner.full:
+					if ru == 'A' || ru == 0xC4 || ru == 0x1F600 {
+						return glyph.ID(winner.glyph)
+					}
+				case winner.k.PlatformID == 1:
+					if _, ok := macByte[ru]; ok {
+						return glyph.ID(winner.glyph)
+					}
+				default:
+					if ru == 'A' || ru == 0xC4 {
+						return glyph.ID(winner.glyph)
+					}
+				}
+				return 0
+			}
+			lay, err := f.NewLayouter(language.Und, nil, nil)
+			if err != nil {
+				c.Fail("C15.layouter", "NewLayouter/cmap", "NewLayouter fails: %v (cmap %v)", err, desc)
+				return
+			}
+			sig := fmt.Sprintf("cmap selection (%d,%d)", winner.k.PlatformID, winner.k.EncodingID)
+			allStrings(runes, 2, func(s string) bool {
+				got := lay.Layout(s)
+				rs := []rune(s)
+				if len(got) != len(rs) {
+					c.Fail("C15.cmap", sig, "Layout(%q): %d glyphs for %d characters (cmap %v)", s, len(got), len(rs), desc)
+					return false
+				}
+				for i, g := range got {
+					if g.GID != want(rs[i]) || string(g.Text) != string(rs[i]) || float64(g.Advance) != f.GlyphWidth(g.GID) {
+						c.Fail("C15.cmap", sig, "Layout(%q): character %d (%U) becomes [%s], want glyph %d with the font's advance %v; cmap %v", s, i, rs[i], fmtInfos(got[i:i+1]), want(rs[i]), f.GlyphWidth(want(rs[i])), desc)
+						return false
+					}
+				}
+				return true
+			})
+			c.Outcome(fmt.Sprint(desc))
 		})
 }
 
@@ -503,6 +608,7 @@ func init() {
 		r.Assume = []string{"lookup selection inside the layout comparison uses the library's FindLookups (checked separately)", "determinism across calls: 25 repetitions inside C15.findlookups, and every map iteration order of the seam's alphabet in C15.map-order*"}
 		c15FindLookups(r)
 		c15Layout(r)
+		c15CmapSelection(r)
 		c15Kern(r)
 		c15Ligatures(r)
 		c15MapOrderFind(r)
